@@ -88,14 +88,15 @@ def sched_params(cfg):
 
 def constraints(cfg):
     c = {"probe": {"orthogonalize_probe": bool(cfg.get("ortho", False))}}
-    if cfg.get("obj_constraints"):
-        c["object"] = dict(cfg["obj_constraints"])
     if cfg.get("rich_constraints"):
         # non-default entries for every model that has a constraint dictionary (all of them are read by
         # the iteration: soft losses for tv / descan tv, hard constraints for the others)
         c["probe"] = {"orthogonalize_probe": True, "center_probe": True}
         c["object"] = {"tv_weight_xy": 0.01, "gaussian_sigma": 0.5}
         c["dataset"] = {"descan_tv_weight": 0.01, "center_scan_positions": True}
+    if cfg.get("obj_constraints"):
+        # round 7: the object constraints of STAGE 1 of a staged run (filter entries and their parameters)
+        c["object"] = dict(c.get("object", {}), **cfg["obj_constraints"])
     return c
 
 
@@ -167,12 +168,48 @@ def first_call(pt, cfg, k):
     return pt
 
 
-def cont(pt, m, cfg=None, reset=False):
-    """continuing `with the same calls`: no new optimiser / scheduler / constraint arguments"""
+def stage_kwargs(pt, cfg, chg):
+    """round 7: the settings one continuation call of a STAGED run changes relative to stage 1 (see
+    harness/c05_stage.py for the format), as keyword arguments of reconstruct(); fresh dictionaries on
+    every call (the setters mutate their arguments)"""
+    kw = {}
+    if not chg:
+        return kw
+    if "constraints" in chg:
+        kw["constraints"] = {m: dict(d) for m, d in chg["constraints"].items()}
+    if "opt" in chg:
+        d = {}
+        for key, spec in chg["opt"].items():
+            if spec["type"] == "none":
+                d[key] = {"type": "none"}
+            else:
+                d.update(opt_params(dict(cfg, opt=spec["type"], optimise=[key], lr={key: spec["lr"]})))
+        kw["optimizer_params"] = d
+    if "sched" in chg:
+        kw["scheduler_params"] = sched_params(dict(cfg, sched=chg["sched"]["type"], optimise=list(chg["sched"]["keys"])))
+    if "batch" in chg:
+        mult, add = chg["batch"]
+        kw["batch_size"] = int(mult) * int(pt.dset.num_gpts) + int(add)      # >= all patterns: a full-batch value
+    if "loss_type" in chg:
+        kw["loss_type"] = chg["loss_type"]
+    if chg.get("reset_false"):
+        kw["reset"] = False
+    if chg.get("device"):
+        kw["device"] = chg["device"]
+    return kw
+
+
+def cont(pt, m, cfg=None, reset=False, stage=None):
+    """continuing `with the same calls`: no new optimiser / scheduler / constraint arguments - unless the
+    call belongs to a staged run (round 7): then it carries the changed settings `stage`, the same for the
+    uninterrupted run, the continued copy and the live original"""
     kw = call_kwargs(cfg) if cfg else {}
     if reset:
         kw["reset"] = True
-    pt.reconstruct(num_iters=m, **kw)
+    kw.update(stage_kwargs(pt, cfg, stage))
+    with warnings.catch_warnings():
+        warnings.simplefilter("ignore")
+        pt.reconstruct(num_iters=m, **kw)
     return pt
 
 
